@@ -171,7 +171,8 @@ ExpectedResult(scn) == [i \in 1..Len(scn.ins) |-> InMeaning(scn, i)]
 (*             result is kept per input, not looked up by name)        *)
 (*   declared  names defined anywhere in the set (intended mode only)  *)
 (*   err       "" or the reason of the failure                         *)
-(*   log       parser events (what the proposed hook would emit)       *)
+(*   trace,log parser events (what the proposed hook would emit), kept  *)
+(*             only when trace is set                                  *)
 (* ------------------------------------------------------------------ *)
 Has(parsed, nm) == \E p \in parsed : p[1] = nm
 Get(parsed, nm) == (CHOOSE p \in parsed : p[1] = nm)[2]
@@ -179,7 +180,7 @@ Put(parsed, nm, t) == {p \in parsed : p[1] # nm} \cup {<<nm, t>>}
 
 Ev(e, nm, how) == [e |-> e, name |-> nm, how |-> how]
 WithErr(st, why) == [st EXCEPT !.err = IF @ = "" THEN why ELSE @]
-Logged(st, ev)   == [st EXCEPT !.log = Append(@, ev)]
+Logged(st, ev)   == IF st.trace THEN [st EXCEPT !.log = Append(@, ev)] ELSE st
 BadTerm == [k |-> "null"]
 
 (* the name an input is filed under in the pending map *)
@@ -260,7 +261,7 @@ FetchRef(nm, st) ==
 InitState(scn, mode) ==
   [mode |-> mode, ins |-> scn.ins, pending |-> 1..Len(scn.ins), resolving |-> {}, parsed |-> {}, out |-> {},
    declared |-> IF mode = "intended" THEN TLCEval(SeqRange(SetDefNames(scn))) ELSE {},
-   err |-> "", log |-> <<>>]
+   err |-> "", trace |-> FALSE, log |-> <<>>]
 
 (* before anything is parsed: two inputs filed under one name are rejected (parse_list, NameCollision); *)
 (* the intended parser scans every definition of the set, nested ones included                          *)
@@ -345,4 +346,13 @@ NestedDupShape(scn) ==
 WrapperShape(scn) ==
   \E i \in 1..Len(scn.ins) :
      scn.ins[i].k = "wrap" /\ KeyOf("faithful", scn.ins[i]) # StoreKeyOf("faithful", scn.ins[i])
+(* ... and some OTHER input refers to the outer or to the inner name of such an input: it is filed under *)
+(* the outer name and stored under the inner one, so what the reference finds depends on whether the   *)
+(* wrapper happened to be drained before                                                               *)
+WrapperRefShape(scn) ==
+  \E i \in 1..Len(scn.ins) : \E nm \in RefsOf(InMeaning(scn, i)) :
+     \E j \in 1..Len(scn.ins) :
+        /\ j # i /\ scn.ins[j].k = "wrap"
+        /\ KeyOf("faithful", scn.ins[j]) # StoreKeyOf("faithful", scn.ins[j])
+        /\ nm \in {KeyOf("faithful", scn.ins[j]), InMeaning(scn, j).name}
 =============================================================================
